@@ -295,6 +295,38 @@ impl FixtureDatabase {
                 for arg in &call.args {
                     self.visit_expr_for_names(arg, ctx);
                 }
+                for keyword in &call.keywords {
+                    self.visit_expr_for_names(&keyword.value, ctx);
+                }
+            }
+            Expr::Starred(starred) => {
+                self.visit_expr_for_names(&starred.value, ctx);
+            }
+            Expr::BoolOp(boolop) => {
+                for value in &boolop.values {
+                    self.visit_expr_for_names(value, ctx);
+                }
+            }
+            Expr::Set(set) => {
+                for elt in &set.elts {
+                    self.visit_expr_for_names(elt, ctx);
+                }
+            }
+            Expr::IfExp(ifexp) => {
+                self.visit_expr_for_names(&ifexp.test, ctx);
+                self.visit_expr_for_names(&ifexp.body, ctx);
+                self.visit_expr_for_names(&ifexp.orelse, ctx);
+            }
+            Expr::JoinedStr(joined) => {
+                for value in &joined.values {
+                    self.visit_expr_for_names(value, ctx);
+                }
+            }
+            Expr::FormattedValue(formatted) => {
+                self.visit_expr_for_names(&formatted.value, ctx);
+            }
+            Expr::NamedExpr(named) => {
+                self.visit_expr_for_names(&named.value, ctx);
             }
             Expr::Attribute(attr) => {
                 self.visit_expr_for_names(&attr.value, ctx);
